@@ -588,4 +588,177 @@ theorem depth_dominates (net : Net W) (lvl : Nat → Nat) (hr : RankedP net lvl)
         simp [hnd, hs]
       omega
 
+/-! ### the declarative longest path `lp` -/
+
+theorem foldl_max_ge (g : Nat → Nat) (l : List Nat) (m : Nat) :
+    m ≤ l.foldl (fun m w => max m (g w)) m ∧ ∀ w ∈ l, g w ≤ l.foldl (fun m w => max m (g w)) m := by
+  induction l generalizing m with
+  | nil => simp
+  | cons a l ih =>
+    simp only [List.foldl_cons]
+    obtain ⟨h1, h2⟩ := ih (max m (g a))
+    refine ⟨by omega, fun w hw => ?_⟩
+    rcases List.mem_cons.mp hw with rfl | hw
+    · omega
+    · exact h2 w hw
+
+theorem foldl_max_attained (g : Nat → Nat) (l : List Nat) (m : Nat) :
+    l.foldl (fun m w => max m (g w)) m = m ∨ ∃ w ∈ l, l.foldl (fun m w => max m (g w)) m = g w := by
+  induction l generalizing m with
+  | nil => left; rfl
+  | cons a l ih =>
+    simp only [List.foldl_cons]
+    rcases ih (max m (g a)) with h | ⟨w, hw, h⟩
+    · by_cases hc : g a ≤ m
+      · left; rw [h]; omega
+      · right; exact ⟨a, by simp, by rw [h]; omega⟩
+    · right; exact ⟨w, by simp [hw], h⟩
+
+theorem le_maxList (g : Nat → Nat) {l : List Nat} {w : Nat} (h : w ∈ l) : g w ≤ maxList g l :=
+  (foldl_max_ge g l 0).2 w h
+
+theorem maxList_attained (g : Nat → Nat) (l : List Nat) : maxList g l = 0 ∨ ∃ w ∈ l, maxList g l = g w :=
+  foldl_max_attained g l 0
+
+theorem maxList_le (g : Nat → Nat) (l : List Nat) (b : Nat) (h : ∀ w ∈ l, g w ≤ b) : maxList g l ≤ b := by
+  rcases maxList_attained g l with h0 | ⟨w, hw, h1⟩
+  · omega
+  · rw [h1]; exact h w hw
+
+/-- `lp` is the length of a real path, for every fuel and every graph -/
+theorem lp_attained (net : Net W) (f : Nat) : ∀ v, ∃ u, Path net u v (lp net f v) := by
+  induction f with
+  | zero => intro v; exact ⟨v, Path.nil v⟩
+  | succ f ih =>
+    intro v
+    unfold lp
+    rcases maxList_attained (fun w => lp net f w + 1) (preds net v) with h | ⟨w, hw, h⟩
+    · rw [h]; exact ⟨v, Path.nil v⟩
+    · rw [h]
+      obtain ⟨u, hp⟩ := ih w
+      exact ⟨u, Path.snoc hp hw⟩
+
+theorem lp_le_lvl {net : Net W} {lvl : Nat → Nat} (hr : RankedP net lvl) (f : Nat) : ∀ v, lp net f v ≤ lvl v := by
+  induction f with
+  | zero => intro v; simp [lp]
+  | succ f ih =>
+    intro v
+    unfold lp
+    apply maxList_le
+    intro w hw
+    have := hr v w hw
+    have := ih w
+    omega
+
+/-- on a ranked graph `lp` with enough fuel dominates every path -/
+theorem lp_ge {net : Net W} {lvl : Nat → Nat} (hr : RankedP net lvl) (f : Nat) :
+    ∀ v u k, lvl v < f → Path net u v k → k ≤ lp net f v := by
+  induction f with
+  | zero => intro v u k h; omega
+  | succ f ih =>
+    intro v u k hf hp
+    cases hp with
+    | nil => omega
+    | snoc hp' hw =>
+      rename_i w k'
+      have hlt := hr v w hw
+      have := ih w u k' (by omega) hp'
+      unfold lp
+      have := le_maxList (fun w => lp net f w + 1) hw
+      omega
+
+/-- if `lp net F` itself is a ranking then it is the longest-path function -/
+theorem lp_exact {net : Net W} {F : Nat} (hr : RankedP net (lp net F)) {u v k : Nat} (hp : Path net u v k) :
+    k ≤ lp net F v := by
+  have h1 := lp_ge hr (lp net F v + 1) v u k (by omega) hp
+  have h2 := lp_le_lvl hr (lp net F v + 1) v
+  omega
+
+/-! ### Bool hypotheses -/
+
+theorem outsUnmarked_iff {net : Net W} {vis : List Bool} :
+    outsUnmarked net vis = true ↔ ∀ o ∈ net.outputs, marked vis o = false := by
+  unfold outsUnmarked
+  rw [List.all_eq_true]
+  constructor
+  · intro h o ho; simpa using h o ho
+  · intro h o ho; simpa using h o ho
+
+theorem marksFit_iff {net : Net W} {vis : List Bool} : marksFit net vis = true ↔ vis.length = net.nodes.length := by
+  unfold marksFit; simp
+
+theorem marked_clean (net : Net W) (j : Nat) : marked (clean net) j = false := by
+  unfold marked clean
+  rw [List.getD_eq_getElem?_getD, List.getElem?_map]
+  cases net.nodes[j]? <;> rfl
+
+theorem clean_fit (net : Net W) : marksFit net (clean net) = true := by simp [marksFit, clean]
+
+theorem clean_outs (net : Net W) : outsUnmarked net (clean net) = true :=
+  outsUnmarked_iff.mpr fun o _ => marked_clean net o
+
+theorem clean_eq_replicate (net : Net W) : clean net = List.replicate net.nodes.length false := by
+  unfold clean
+  induction net.nodes with
+  | nil => rfl
+  | cons a l ih => simp [List.replicate_succ, ih]
+
+/-- the cap relation for the loop over the outputs -/
+theorem outLoop_cap (net : Net W) {cap : Int} (hcap : 0 < cap) (vis : List Bool)
+    (hl : vis.length = net.nodes.length) (ho : ∀ o ∈ net.outputs, marked vis o = false) :
+    CapRel cap vis (outLoop net 0 net.outputs 0 vis) (outLoop net cap net.outputs 0 vis) := by
+  rw [outLoop_eq_loop net 0 _ _ _ ho, outLoop_eq_loop net cap _ _ _ ho]
+  have hrel : ∀ j, marked vis j = false →
+      CapRel cap vis ((fun v j => depth net 0 (fuelOf net) v j 0) vis j)
+        ((fun v j => depth net cap (fuelOf net) v j 0) vis j) := by
+    intro j hj
+    have := unmarked_le vis
+    exact depth_cap net hcap (fuelOf net) vis j 0 hj hl (by unfold fuelOf; omega)
+  exact (loop_cap (callU := fun v j => depth net 0 (fuelOf net) v j 0)
+    (callC := fun v j => depth net cap (fuelOf net) v j 0) (v := vis) (cap := cap) hrel net.outputs 0 (by omega)).1
+
+theorem outLoop_nonpos_cap (net : Net W) {cap : Int} (h : cap ≤ 0) (os : List Nat) (mx : Nat) (vis : List Bool) :
+    outLoop net cap os mx vis = outLoop net 0 os mx vis := by
+  induction os generalizing mx vis with
+  | nil => rfl
+  | cons o os ih =>
+    unfold outLoop
+    rw [depth_nonpos_cap net h]
+    simp only [ih]
+
+/-! ### counting nodes by kind -/
+
+theorem filter3_le {α} (p q r : α → Bool) (hex : ∀ a, (p a = true → q a = false ∧ r a = false) ∧ (q a = true → r a = false))
+    (l : List α) : (l.filter p).length + (l.filter q).length + (l.filter r).length ≤ l.length := by
+  induction l with
+  | nil => simp
+  | cons a l ih =>
+    have := hex a
+    simp only [List.filter_cons, List.length_cons]
+    cases hp : p a <;> cases hq : q a <;> cases hr : r a <;> simp_all <;> omega
+
+theorem kinds_exclusive (a : NNodeS W) :
+    (a.isSensor = true → (a.kind == Kind.output) = false ∧ (a.kind == Kind.hidden) = false) ∧
+    ((a.kind == Kind.output) = true → (a.kind == Kind.hidden) = false) := by
+  unfold NNodeS.isSensor Kind.input Kind.bias Kind.output Kind.hidden
+  simp only [Bool.or_eq_true, beq_iff_eq, beq_eq_false_iff_ne, ne_eq]
+  refine ⟨fun h => ?_, fun h => ?_⟩
+  · rcases h with h | h <;> rw [h] <;> decide
+  · rw [h]; decide
+
+theorem shortcut_false_of_hidden (net : Net W) (hh : hasHidden net = true) (hio : IOCounts net = true) :
+    noHiddenShortcut net = false := by
+  unfold IOCounts at hio
+  simp only [Bool.and_eq_true, beq_iff_eq] at hio
+  unfold noHiddenShortcut
+  rw [hio.1, hio.2]
+  have h3 := filter3_le (fun nd : NNodeS W => nd.isSensor) (fun nd => nd.kind == Kind.output)
+    (fun nd => nd.kind == Kind.hidden) kinds_exclusive net.nodes
+  unfold hasHidden at hh
+  obtain ⟨x, hx, hp⟩ := List.any_eq_true.mp hh
+  have hpos : 0 < (net.nodes.filter fun nd => nd.kind == Kind.hidden).length :=
+    List.length_pos_of_mem (List.mem_filter.mpr ⟨hx, hp⟩)
+  simp only [beq_eq_false_iff_ne, ne_eq]
+  omega
+
 end GoNeat.Depth
